@@ -418,7 +418,8 @@ pub fn unread_stream(b: u64, seed: u64, kind: &str) -> Value {
     let policy: Policy = Box::new(move |me, m, w| {
         let q = m.q.clone().unwrap_or_default();
         if m.target() != Some(target) {
-            return Reply::Default;
+            // the other call's lookup is the slower one: all values have arrived (unread) when it ends
+            return if q == "find_node" { Reply::DefaultAfter(120) } else { Reply::Default };
         }
         match (q.as_str(), kind2.as_str()) {
             ("get_peers", "peers") => Reply::One(lookup_reply(&nodes, me, m, w, &[("values", B::List(vec![B::bytes(&[10, 9, 0, me.idx as u8 + 1, 0x1a, 0xe1][..])]))], true), 5 + me.idx as u64),
